@@ -26,7 +26,7 @@ tvars == <<l, cs, viol, nev>>
 EmptyCfg == [cid |-> NONE, regs |-> <<>>, faults |-> <<>>, closeerr |-> <<>>]
 CInit(cfg) == [cfg |-> cfg, phase |-> "new", skip |-> FALSE,
                scopes |-> <<>>,        \* name -> [parent, closing (line of the first close trigger, 0 if none), closed]
-               pclosing |-> 0, pclosed |-> FALSE,
+               pclosing |-> 0, pclosed |-> FALSE, plost |-> FALSE,
                inst |-> <<>>,          \* id -> [reg, outs, owner, th, born, ready, returned, closed, discarded]
                curs |-> <<>>,          \* process -> call in progress
                reports |-> {},         \* [th, line]: Close calls that returned a disposal error
@@ -59,9 +59,9 @@ OverlapClasses == DisposedClasses \cup {"ctorError", "resolution"}
 \* ---- call ---------------------------------------------------------------------------------
 ApplyCall2(e) ==
     LET tgt == ScopeOfTarget(e.sc)
-        rec == [op |-> e.op, sc |-> e.sc, name |-> e.name, t |-> e.t, k |-> e.k, line |-> l, nerr |-> 0, nself |-> 0,
+        rec == [op |-> e.op, sc |-> e.sc, name |-> e.name, t |-> e.t, k |-> e.k, line |-> l, nerr |-> 0, nself |-> 0, lost |-> FALSE,
                 mustRefuse |-> IF e.op \in {"resolve", "group", "create"}
-                               THEN (IF e.sc = "prov" THEN cs.pclosed ELSE IsClosed(tgt)) ELSE FALSE,
+                               THEN (IF e.sc = "prov" THEN cs.pclosed \/ cs.plost ELSE IsClosed(tgt)) ELSE FALSE,
                 wasClosed |-> IF e.op = "closeprov" THEN cs.pclosing > 0
                               ELSE IF e.op \in {"close", "cancel"} THEN (tgt \in SNames /\ IsClosing(tgt)) ELSE FALSE]
         withCur == [cs EXCEPT !.curs = (e.th :> rec) @@ @]
@@ -211,8 +211,11 @@ ApplyRet2(e) ==
                         !.handed = IF life = "transient" THEN @ \cup {v} ELSE @]
     ELSE IF c.op = "close" /\ c.sc \in SNames THEN
         [base EXCEPT !.reports = IF "disposal" \in err THEN @ \cup {[th |-> e.th, line |-> l]} ELSE @,
-                     !.scopes = [s \in SNames |-> IF s \in Sub(c.sc) THEN [@[s] EXCEPT !.closed = TRUE, !.closing = IF @ = 0 THEN c.line ELSE @] ELSE @[s]]]
-    ELSE IF c.op = "closeprov" THEN [base EXCEPT !.pclosed = TRUE,
+                     \* a Close that returned means the scope refuses from now on; its descendants are closed for sure
+                     \* only when this was the Close that did the closing (not the idempotent no-op)
+                     !.scopes = [s \in SNames |-> IF s = c.sc \/ (s \in Sub(c.sc) /\ ~c.lost)
+                                                  THEN [@[s] EXCEPT !.closed = TRUE, !.closing = IF @ = 0 THEN c.line ELSE @] ELSE @[s]]]
+    ELSE IF c.op = "closeprov" THEN [base EXCEPT !.pclosed = ~c.lost \/ @, !.plost = @ \/ c.lost,
                                                   !.reports = IF "disposal" \in err THEN @ \cup {[th |-> e.th, line |-> l]} ELSE @]
     ELSE base
 
@@ -243,6 +246,10 @@ Apply2(e) ==
     ELSE IF e.ev = "close" THEN ApplyClose2(e)
     ELSE IF e.ev = "ret" /\ e.th \in DOMAIN cs.curs THEN ApplyRet2(e)
     ELSE IF e.ev = "waits" THEN [cs EXCEPT !.waited = @ \cup {[th |-> e.th, scope |-> e.scope, line |-> l]}]
+    ELSE IF e.ev = "noop" /\ e.th \in DOMAIN cs.curs THEN
+        \* the Close in progress on that target lost the compare-and-swap: it is the no-op, the closing is somebody else's
+        (IF (cs.curs[e.th].op = "close" /\ cs.curs[e.th].sc = e.scope) \/ (cs.curs[e.th].op = "closeprov" /\ e.scope = "prov")
+         THEN [cs EXCEPT !.curs = [@ EXCEPT ![e.th] = [@ EXCEPT !.lost = TRUE]]] ELSE cs)
     ELSE cs
 
 Step ==
